@@ -723,7 +723,6 @@ Definition refresh_fixed (ins : list operand) (out : option (list dim)) : option
       let out1 := match op_shape src with Some s => Some s | None => out end in
       match broadcast_shape_dims (candidates_all ins) with Some mg => Some mg | None => out1 end
   end.
-Definition refresh_gen (skip_scalars : bool) := if skip_scalars then refresh else refresh_fixed.
 
 Lemma candidates_all_ok rho ps : operands_ok rho ps ->
   (forall o c, In (o, c) ps -> op_shape o <> None) ->
@@ -753,6 +752,117 @@ Qed.
 Example refresh_fixed_on_witness :
   refresh_fixed (map fst refresh_witness) (Some [DInt 1; DInt 3]) = Some [DInt 1; DInt 3].
 Proof. vm_compute. reflexivity. Qed.
+
+(* ---- history of the pass in /repo.  harness/c08.py probes the real code to decide which variant is in force.
+     variant 1 = original ([refresh]): one-element constants skipped;
+     variant 2 = commit fbce23b ([refresh_fixed]): nothing skipped except operands WITHOUT a declared shape;
+     variant 3 = commit 560936b ([refresh_v3]): an operand without a declared shape makes the pass give up - but only
+                 after the shape of the source operand has already been copied to the output;
+     variant 4 = proposed ([refresh_v4]): give up BEFORE anything is written. *)
+Definition has_unknown (ins : list operand) : bool :=
+  existsb (fun o => match op_shape o with None => true | Some _ => false end) ins.
+Definition refresh_v3 (ins : list operand) (out : option (list dim)) : option (list dim) :=
+  match shape_source ins with
+  | None => out
+  | Some src =>
+      let out1 := match op_shape src with Some s => Some s | None => out end in
+      if has_unknown ins then out1
+      else match broadcast_shape_dims (candidates_all ins) with Some mg => Some mg | None => out1 end
+  end.
+Definition refresh_v4 (ins : list operand) (out : option (list dim)) : option (list dim) :=
+  if has_unknown ins then out
+  else match broadcast_shape_dims (candidates_all ins) with Some mg => Some mg | None => out end.
+Definition refresh_variant (v : nat) : list operand -> option (list dim) -> option (list dim) :=
+  match v with 1 => refresh | 2 => refresh_fixed | 3 => refresh_v3 | _ => refresh_v4 end.
+
+Definition sound_statement (f : list operand -> option (list dim) -> option (list dim)) : Prop :=
+  forall rho ps out cr,
+    operands_ok rho ps -> bcast_list (map snd ps) = Some cr -> oshape_ok rho out cr ->
+    oshape_ok rho (f (map fst ps) out) cr.
+
+(* variant 2 REFUTED (the regression caught on jnp_right_shift_broadcast_f64): Min(s without declared shape, scalar
+   constant), s is [1,3] at run time: the output is re-annotated [] from the constant alone *)
+Definition refresh_witness_v2 : list (operand * list nat) :=
+  [ (mkOp None None false, [1; 3]); (mkOp (Some []) (Some 1) true, []) ].
+Theorem refresh_fixed_refuted : ~ sound_statement refresh_fixed.
+Proof.
+  intro H. specialize (H (fun _ => 1) refresh_witness_v2 (Some [DInt 1; DInt 3]) [1; 3]).
+  assert (Hok : operands_ok (fun _ => 1) refresh_witness_v2).
+  { intros o c [E|[E|[]]]; injection E as <- <-; (split; [simpl; repeat constructor|]).
+    - intro E; discriminate E.
+    - intros _. constructor. }
+  specialize (H Hok eq_refl).
+  assert (Hout : oshape_ok (fun _ => 1) (Some [DInt 1; DInt 3]) [1; 3]) by (simpl; repeat constructor).
+  specialize (H Hout). vm_compute in H. inversion H.
+Qed.
+
+(* variant 3 REFUTED: Add(x:[3], y without declared shape), y is [2,3] at run time, output correctly annotated [2,3]:
+   the shape [3] of the source operand x is copied to the output before the pass gives up *)
+Definition refresh_witness_v3 : list (operand * list nat) :=
+  [ (mkOp (Some [DInt 3]) None false, [3]); (mkOp None None false, [2; 3]) ].
+Example refresh_witness_v3_value :
+  refresh_v3 (map fst refresh_witness_v3) (Some [DInt 2; DInt 3]) = Some [DInt 3]
+  /\ bcast_list (map snd refresh_witness_v3) = Some [2; 3].
+Proof. split; vm_compute; reflexivity. Qed.
+Theorem refresh_v3_refuted : ~ sound_statement refresh_v3.
+Proof.
+  intro H. specialize (H (fun _ => 1) refresh_witness_v3 (Some [DInt 2; DInt 3]) [2; 3]).
+  assert (Hok : operands_ok (fun _ => 1) refresh_witness_v3).
+  { intros o c [E|[E|[]]]; injection E as <- <-; (split; [simpl; repeat constructor|]); intro E; discriminate E. }
+  specialize (H Hok eq_refl).
+  assert (Hout : oshape_ok (fun _ => 1) (Some [DInt 2; DInt 3]) [2; 3]) by (simpl; repeat constructor).
+  specialize (H Hout). vm_compute in H. inversion H as [|? ? ? ? _ Hl]. inversion Hl.
+Qed.
+
+Lemma has_unknown_false ps : has_unknown (map fst ps) = false ->
+  forall o c, In (o, c) ps -> op_shape o <> None.
+Proof.
+  unfold has_unknown. intros H o c Hin E.
+  assert (Hex : existsb (fun o => match op_shape o with None => true | Some _ => false end) (map fst ps) = true).
+  { apply existsb_exists. exists o. split; [apply in_map_iff; exists (o, c); au|now rewrite E]. }
+  rewrite Hex in H. discriminate.
+Qed.
+
+Lemma shape_source_nonempty ins : ins <> [] -> shape_source ins <> None.
+Proof.
+  destruct ins as [|o r]; [cong|]. intros _. unfold shape_source. simpl.
+  destruct (negb (is_scalar_const o)); [discriminate|]. destruct (find _ r); discriminate.
+Qed.
+
+(* variant 3 PARTIAL, exact: when some operand has no declared shape the source operand must have none either;
+   when all are declared the annotations must merge *)
+Theorem refresh_v3_sound_partial rho ps out cr :
+  operands_ok rho ps -> bcast_list (map snd ps) = Some cr -> oshape_ok rho out cr ->
+  (has_unknown (map fst ps) = true ->
+     forall src, shape_source (map fst ps) = Some src -> op_shape src = None) ->
+  (has_unknown (map fst ps) = false -> broadcast_shape_dims (candidates_all (map fst ps)) <> None) ->
+  oshape_ok rho (refresh_v3 (map fst ps) out) cr.
+Proof.
+  intros Hok Hb Hout Hu Hm. unfold refresh_v3.
+  destruct (shape_source (map fst ps)) as [src|] eqn:Esrc; [|exact Hout]. cbv zeta.
+  destruct (has_unknown (map fst ps)) eqn:Eu.
+  - rewrite (Hu eq_refl src eq_refl). exact Hout.
+  - specialize (Hm eq_refl).
+    destruct (broadcast_shape_dims (candidates_all (map fst ps))) as [mg|] eqn:Eb; [|contradiction].
+    simpl. eapply broadcast_dims_sound; [exact Eb|apply candidates_all_ok; [exact Hok|]|exact Hb].
+    apply has_unknown_false. exact Eu.
+Qed.
+
+(* variant 4 (proposed repair: decide first, write afterwards) is sound at FULL strength: no hypothesis on declared
+   shapes, on ranks or on the symbols *)
+Theorem refresh_v4_sound : sound_statement refresh_v4.
+Proof.
+  intros rho ps out cr Hok Hb Hout. unfold refresh_v4.
+  destruct (has_unknown (map fst ps)) eqn:Eu; [exact Hout|].
+  destruct (broadcast_shape_dims (candidates_all (map fst ps))) as [mg|] eqn:Eb; [|exact Hout].
+  simpl. eapply broadcast_dims_sound; [exact Eb|apply candidates_all_ok; [exact Hok|]|exact Hb].
+  apply has_unknown_false. exact Eu.
+Qed.
+Example refresh_v4_on_witnesses :
+  refresh_v4 (map fst refresh_witness) (Some [DInt 1; DInt 3]) = Some [DInt 1; DInt 3]
+  /\ refresh_v4 (map fst refresh_witness_v2) (Some [DInt 1; DInt 3]) = Some [DInt 1; DInt 3]
+  /\ refresh_v4 (map fst refresh_witness_v3) (Some [DInt 2; DInt 3]) = Some [DInt 2; DInt 3].
+Proof. repeat split; vm_compute; reflexivity. Qed.
 
 (* ================================================================= 6. a checker for real exports *)
 (* For operators with an exact shape rule, when ALL operand annotations are fully static, the declared output shape
